@@ -7,7 +7,7 @@
    ("RAW <json>"): conformance of Dec with bdecode on arbitrary input, including malformed. *)
 EXTENDS Bencode, Json
 
-CONSTANTS Mode,        \* "laws" | "pairs" | "bytes"
+CONSTANTS Mode,        \* "laws" | "pairs" | "bytes" | "all" | "ctl"
           IntMags,     \* magnitudes of the integer atoms (both signs are used)
           CPs,         \* code points for str atoms
           BAlpha,      \* bytes for bytes atoms
@@ -61,28 +61,31 @@ RawStrings == SeqsUpTo(ByteAlpha, MaxRaw)
 VARIABLES x, y
 vars == <<x, y>>
 None == V("none", 0)
+Has(m) == Mode = m \/ Mode = "all"
 
-Init == CASE Mode = "laws"  -> x \in U /\ y = None
-          [] Mode = "pairs" -> x \in USmall /\ y = None
-          [] Mode = "bytes" -> x \in {V("bytes", b) : b \in RawStrings} /\ y = None
-Next == /\ Mode = "pairs" /\ y = None
+\* witnesses for the seeded-defect control run (Mode = "ctl")
+CtlSet == {V("list", <<V("bool", 1)>>), V("str", <<233>>),
+           V("dict", <<<<V("str", <<101>>), V("int", 1)>>, <<V("str", <<100>>), V("int", 1)>>>>)}
+Init == /\ y = None
+        /\ x \in (IF Mode = "ctl" THEN CtlSet ELSE {}) \cup (IF Has("laws") THEN U ELSE {}) \cup (IF Has("pairs") THEN USmall ELSE {})
+                 \cup (IF Has("bytes") THEN {V("raw", b) : b \in RawStrings} ELSE {})
+Next == /\ Has("pairs") /\ y = None /\ x \in USmall
         /\ x' = x /\ y' \in USmall
 Spec == Init /\ [][Next]_vars
 
-Laws == Mode = "laws" => /\ RejectOK(x) /\ RoundTripOK(x) /\ ClassOK(x) /\ KeyOrderOK(x)
-                         /\ KeyOrderIsByteOrder(x)
+InLaws == (Has("laws") /\ y = None /\ x \in U) \/ Mode = "ctl"
 \* split so that TLC names the broken law
-LawReject == Mode = "laws" => RejectOK(x)
-LawRoundTrip == Mode = "laws" => RoundTripOK(x)
-LawClass == Mode = "laws" => ClassOK(x)
-LawKeyOrder == Mode = "laws" => KeyOrderOK(x) /\ KeyOrderIsByteOrder(x)
-LawPair == (Mode = "pairs" /\ y # None) => PairOK(x, y)
+LawReject == InLaws => RejectOK(x)
+LawRoundTrip == InLaws => RoundTripOK(x)
+LawClass == InLaws => ClassOK(x)
+LawKeyOrder == InLaws => KeyOrderOK(x) /\ KeyOrderIsByteOrder(x)
+LawPair == (Has("pairs") /\ y # None) => PairOK(x, y)
 \* counting form over the whole universe; evaluated once per run (at one designated state)
-LawInjective == (Mode = "laws" /\ x = None) => InjectiveOn(U)
+LawInjective == (Has("laws") /\ x = None /\ y = None) => InjectiveOn(U)
 
-Emit == CASE Mode = "laws" ->
-               PrintT("CASE " \o ToJson([x |-> x, enc |-> Enc(x),
-                                         dec |-> IF Enc(x) = Err THEN V("err", 0) ELSE Decode(Enc(x))]))
-          [] Mode = "bytes" -> PrintT("RAW " \o ToJson([b |-> x.v, dec |-> Decode(x.v)]))
-          [] OTHER -> TRUE
+Emit == IF InLaws
+        THEN PrintT("CASE " \o ToJson([x |-> x, enc |-> Enc(x),
+                                       dec |-> IF Enc(x) = Err THEN V("err", 0) ELSE Decode(Enc(x))]))
+        ELSE IF x.k = "raw" THEN PrintT("RAW " \o ToJson([b |-> x.v, dec |-> Decode(x.v)]))
+        ELSE TRUE
 =============================================================================
